@@ -323,7 +323,9 @@ impl UndefinedFunctionError {
             .to_string();
         let arity = map
             .get(&OwnedTerm::Atom(Atom::new("arity")))?
-            .as_integer()? as u8;
+            .as_integer()?
+            .try_into()
+            .ok()?;
         let reason = map
             .get(&OwnedTerm::Atom(Atom::new("reason")))
             .and_then(|v| v.as_erlang_string());
